@@ -39,13 +39,16 @@ ASSUME NameClasses \subseteq GoodNames \cup BadNames
      miss         no entry
      good         key + chain for N, validity window W (clock decides)
      othername    consistent key + certificate for another name
-     keymismatch  certificate for N but for a different private key
+     keymismatch  certificate for N but for an UNRELATED private key (differs from the leaf key in every component)
+     keynegated   certificate for N, private key = the negated scalar n-d of the leaf's ECDSA key: its public
+                  point (X, p-Y) shares X with the leaf key and differs only in Y (for an RSA certKey there is no
+                  such key; the class then coincides with keymismatch)
      wrongtype    consistent key + certificate for N of the OTHER key type
      nopem        not PEM at all              garbage      valid entry followed by non-PEM bytes
      nokeyblock   first PEM block is not a private key
      badkeyder    PRIVATE KEY block whose DER does not parse  (cacheGet returns that error: the
                   call fails, it is NOT treated as a miss)                                     *)
-MissLike == {"miss", "othername", "keymismatch", "wrongtype", "nopem", "garbage", "nokeyblock"}
+MissLike == {"miss", "othername", "keymismatch", "keynegated", "wrongtype", "nopem", "garbage", "nokeyblock"}
 InWindow(c) == c \in {"start", "mid", "end"}          \* NotBefore <= now <= NotAfter (inclusive)
 
 NoProc == "none"
